@@ -42,7 +42,7 @@ theorem LSame.ite_setFault (s : Shared) (c : Prop) [Decidable c] (f : Fault) :
   split
   · exact LSame.refl s
   · exact LSame.setFault s _
-theorem LSame.ite_setFault' {s x : Shared} (h : LSame s x) (c : Prop) [Decidable c] (f : Fault) :
+theorem LSame.ite_setFault_of {s x : Shared} (h : LSame s x) (c : Prop) [Decidable c] (f : Fault) :
     LSame s (if c then x else x.setFault f) := by
   split
   · exact h
@@ -59,7 +59,7 @@ macro "lsame" : tactic =>
       | exact LSame.alloc _ _
       | exact LSame.dbg _ _ _
       | exact LSame.ite_setFault _ _ _
-      | exact LSame.ite_setFault' (LSame.setNode _ _ _ (fun _ => rfl)) _ _
+      | exact LSame.ite_setFault_of (LSame.setNode _ _ _ (fun _ => rfl)) _ _
       | (refine LSame.trans ?_ (LSame.setFault _ _); exact LSame.setNode _ _ _ (fun _ => rfl))
       | (refine LSame.trans (LSame.setFault _ _) ?_; exact LSame.alloc _ _)
       | exact ⟨rfl, fun _ => rfl, rfl⟩
